@@ -646,7 +646,7 @@ func ruleC18Lifecycle(c *Ctx, r *Result) {
 					}
 				}
 			})
-			r.Check(flagStore != nil, "C18.6", c.Name(starter)+"#start-flag-under-lock", c.InstrPos(g), "the go statement is preceded by setting a started/running flag while the lock is held")
+			r.CheckMissing(c, starter, flagStore != nil, "C18.6", c.Name(starter)+"#start-flag-under-lock", c.InstrPos(g), "the go statement is preceded by setting a started/running flag while the lock is held")
 		}
 	}
 	r.Floor("C18.6", 8)
@@ -683,7 +683,7 @@ func (c *Ctx) checkSingleSignal(r *Result, fn *ssa.Function, wait ssa.Instructio
 			}
 		})
 		if closeAt != nil {
-			r.Viol("C18.6", c.Name(fn)+"#single-stop-signal", c.InstrPos(closeAt), "the stop channel is closed without a flag that is tested and cleared under one hold of the lock: two overlapping stop requests both pass an unlocked (or separately locked) running test and the second close panics")
+			r.ViolMissing(c, fn, "C18.6", c.Name(fn)+"#single-stop-signal", c.InstrPos(closeAt), "the stop channel is closed without a flag that is tested and cleared under one hold of the lock: two overlapping stop requests both pass an unlocked (or separately locked) running test and the second close panics")
 			return
 		}
 		r.Undec("C18.6", c.Name(fn)+"#single-stop-signal", c.InstrPos(wait), "no flag test under lock found")
